@@ -1,5 +1,6 @@
 import FlacVerif.Driver.SinkDrv
 import FlacVerif.Driver.StreamDrv
+import FlacVerif.Driver.KernelDrv
 open FlacVerif Proto Drv
 
 def renderAll (id : String) (vs : List Verdict) (stats : List String) : List String :=
@@ -14,6 +15,7 @@ def handle (line : String) : List String :=
   | "" => []
   | "sink" => [(sinkRecord r).render id]
   | "stream" => let (vs, st) := streamRecord r; renderAll id vs st
+  | "kernel" => let (vs, st) := kernelRecord r; renderAll id vs st
   | k => [s!"SKIP {id} unknown-record-kind-{k}"]
 
 partial def loop (h : IO.FS.Stream) (out : IO.FS.Stream) : IO Unit := do
